@@ -4,6 +4,9 @@
 (* real mapper returned (both schema versions):                             *)
 (*  {"ev":"int","ver":V,"via":"datum"|"output","l":INT,"rpc":INT,"want":INT}*)
 (*  {"ev":"datum","ver":V,"via":..,"l":TREE,"rpc":TREE}                     *)
+(*  {"ev":"out","ver":V,"enc":E,"l":OUT,"r":OUT}  generated output, inline   *)
+(*        datum in wire variant E; OUT has dhash (= H[dwire] on the ledger   *)
+(*        side) and dwire (wire bytes / Datum.original_cbor)                 *)
 (*  {"ev":"tx","ver":V,"src":FILE,"l":TX,"r":TX}                             *)
 (*  {"ev":"block","ver":V,"src":FILE,"l":HDR,"r":HDR}                        *)
 (*  {"ev":"panic",...}   a panic inside the mapper: matched by no action     *)
@@ -13,13 +16,24 @@
 (* printed as DRIFT.                                                         *)
 EXTENDS UtxoRpc, TraceKit
 
-VARIABLE l
-tvars == <<arg, res, l>>
+VARIABLES l,     \* index of the next event
+          hm     \* the uninterpreted datum hash H, learned: wire bytes -> hash (first use defines)
+tvars == <<arg, res, l, hm>>
+
+\* H is a function: the same wire bytes never come with two hashes
+Pairs(outs) == { <<outs[i].dwire, outs[i].dhash>> : i \in { j \in 1..Len(outs) : outs[j].dwire # "" } }
+Learn(outs) ==
+    LET P == Pairs(outs)
+        new == { p[1] : p \in P } \ DOMAIN hm
+    IN  /\ \A p \in P : p[1] \in DOMAIN hm => hm[p[1]] = p[2]
+        /\ \A p, q \in P : p[1] = q[1] => p[2] = q[2]
+        /\ hm' = [w \in DOMAIN hm \cup new |->
+                     IF w \in DOMAIN hm THEN hm[w] ELSE (CHOOSE p \in P : p[1] = w)[2]]
 
 IsEvent(e) == l <= NRec /\ Rec[l].ev = e /\ l' = l + 1
 IsInt(r) == r.cls \in {"int", "buint", "bnint"}
 
-TInit == Init /\ l = 1
+TInit == Init /\ l = 1 /\ hm = [w \in {} |-> ""]
 
 TInt ==
     /\ IsEvent("int")
@@ -27,21 +41,32 @@ TInt ==
     /\ MapPlutusBigInt(Rec[l].l)                    \* design model: res' = MapInt(l)
     /\ Exact(Rec[l].l, Rec[l].rpc)                  \* the property
     /\ IF Rec[l].rpc = res' THEN TRUE ELSE PrintT(<<"DRIFT", l, "model", res', "impl", Rec[l].rpc>>)
+    /\ UNCHANGED hm
 
 TDatum ==
     /\ IsEvent("datum")
     /\ MapPlutusDatum(Rec[l].l)
     /\ SameDatum(Rec[l].l, Rec[l].rpc)
+    /\ UNCHANGED hm
+
+\* a generated output carrying a datum inline in some wire variant
+TOut ==
+    /\ IsEvent("out")
+    /\ arg' = [op |-> "map_tx_output", l |-> Rec[l].l.dhash] /\ res' = Rec[l].r.dhash
+    /\ SameOutput(Rec[l].l, Rec[l].r)
+    /\ Learn(<<Rec[l].l>>)
 
 TTx ==
     /\ IsEvent("tx")
     /\ arg' = [op |-> "map_tx", l |-> Rec[l].l.hash] /\ res' = Rec[l].r.hash
     /\ Preserve(Rec[l].l, Rec[l].r)
+    /\ Learn(Rec[l].l.outputs)
 
 TBlock ==
     /\ IsEvent("block")
     /\ arg' = [op |-> "map_block", l |-> Rec[l].l.hash] /\ res' = Rec[l].r.hash
     /\ Rec[l].l = Rec[l].r
+    /\ UNCHANGED hm
 
-TNext == TInt \/ TDatum \/ TTx \/ TBlock
+TNext == TInt \/ TDatum \/ TOut \/ TTx \/ TBlock
 =============================================================================
